@@ -24,6 +24,11 @@ const (
 	maxClockSkew = 900 * time.Second
 )
 
+type cachedRevocationStatus struct {
+	status     core.RevocationStatus
+	validUntil time.Time
+}
+
 type OCSPRevocationChecker struct {
 	ocspConfig *config.OCSPConfig
 	logger     *zap.Logger
@@ -35,7 +40,12 @@ func (c *OCSPRevocationChecker) IsRevoked(clientCertificate *x509.Certificate, v
 	if err != nil {
 		return nil, err
 	}
-	cacheKey := subjectRDNSequence.String() + "_" + clientCertificate.SerialNumber.String()
+	issuer, err := asn1parser.ParseIssuerRDNSequence(clientCertificate)
+	if err != nil {
+		return nil, err
+	}
+	//a certificate is identified by issuer and serial, the subject alone is not unique across issuers
+	cacheKey := issuer.String() + "_" + subjectRDNSequence.String() + "_" + clientCertificate.SerialNumber.String()
 	cache, err := c.tryGetResponseFromCache(cacheKey)
 	if err == nil {
 		return cache, nil
@@ -45,10 +55,6 @@ func (c *OCSPRevocationChecker) IsRevoked(clientCertificate *x509.Certificate, v
 
 	chains := core.NewCertificateChains(verifiedChains, c.ocspConfig.TrustedResponderCerts)
 	//TODO Support AIA via clientCertificate.IssuingCertificateURL
-	issuer, err := asn1parser.ParseIssuerRDNSequence(clientCertificate)
-	if err != nil {
-		return nil, err
-	}
 	certCandidates, err := core.FindCertificateIssuerCandidates(issuer, &clientCertificate.Extensions, clientCertificate.PublicKeyAlgorithm, chains)
 	ocspServerList := c.filterHTTPOCSPServers(clientCertificate.OCSPServer)
 	var output []byte = nil
@@ -81,7 +87,10 @@ func (c *OCSPRevocationChecker) IsRevoked(clientCertificate *x509.Certificate, v
 			}
 			evictionTime := c.calculateEvictionTime(ocspResponse)
 			if evictionTime > 0 {
-				c.cache.Add(cacheKey, evictionTime, revocationStatus)
+				c.cache.Add(cacheKey, evictionTime, cachedRevocationStatus{
+					status:     revocationStatus,
+					validUntil: time.Now().Add(evictionTime),
+				})
 			}
 			return &revocationStatus, nil
 		}
@@ -206,7 +215,13 @@ func (c *OCSPRevocationChecker) tryGetResponseFromCache(cacheKey string) (*core.
 	// Let's retrieve the item from the cache.
 	res, err := c.cache.Value(cacheKey)
 	if err == nil {
-		response := res.Data().(core.RevocationStatus)
+		cached := res.Data().(cachedRevocationStatus)
+		//the cache table prolongs the life of an item on every access, the status itself must not outlive its validity
+		if time.Now().After(cached.validUntil) {
+			_, _ = c.cache.Delete(cacheKey)
+			return nil, errors.New("cached ocsp response is expired")
+		}
+		response := cached.status
 		return &response, nil
 	} else {
 		return nil, err
